@@ -324,8 +324,9 @@ func spec_sent(i int) Token { panic("spec") }
 //@ loop 0: invariant wfL(l) && l.end >= before(l.end) && l.start == before(l.start)
 //@ loop 0: decreases len(l.input) - l.end
 
+// (keyword recognition: also the basis of every directive-dependent property - a failed probe must leave the position untouched)
 //@ func (*lexer).acceptOnlyAlphaWord
-//@ props C13
+//@ props C13 C04 C07 C11 C12
 //@ results ok
 //@ requires wfL(l)
 //@ ensures wfL(l) && l.start == old(l.start) && (ok ==> l.end >= old(l.end) + rune_count(word)) && (!ok ==> l.end == old(l.end))
@@ -334,8 +335,9 @@ func spec_sent(i int) Token { panic("spec") }
 //@ loop 0: decreases len(l.input) - l.end
 //@ loop 1: invariant wfL(l) && l.end >= pos + cnt1 && l.start == before(l.start)
 
+// (keyword recognition: also the basis of every directive-dependent property - a failed probe must leave the position untouched)
 //@ func (*lexer).acceptWord
-//@ props C13
+//@ props C13 C04 C07 C11 C12
 //@ results ok
 //@ requires wfL(l)
 //@ ensures wfL(l) && l.start == old(l.start) && (ok ==> l.end >= old(l.end) + rune_count(word)) && (!ok ==> l.end == old(l.end))
@@ -531,6 +533,10 @@ func spec_sent(i int) Token { panic("spec") }
 //@ before_stmt [C04] "PreDefList = append(PreDefList, p.parsePrecList(&TokDefList))" true
 //@ before_stmt [C07,C12] "TypeDefList = append(TypeDefList, p.parseTypeList()...)" true
 //@ before_stmt [C12] "StartSym = p.parseStartSymbol()" true
+// every directive is dispatched to its section parser: a token that falls through the %token and precedence branches is none
+// of %token / %left / %right / %nonassoc / %precedence, and one that falls through to the end is not %type either
+//@ before_stmt [C04,C11,C07,C12] "if p.current.Is(TypeDirective)" p.current.Kind != TokenDirective && p.current.Kind != LeftAssoc && p.current.Kind != RightAssoc && p.current.Kind != NoneAssoc && p.current.Kind != Precedence
+//@ before_stmt [C04,C11,C07,C12] "if p.current.Is(StartDirective)" p.current.Kind != TokenDirective && p.current.Kind != LeftAssoc && p.current.Kind != RightAssoc && p.current.Kind != NoneAssoc && p.current.Kind != Precedence && p.current.Kind != TypeDirective
 //@ use STREAM
 //@ results node
 //@ requires p != nil && p.lex != nil && p.peekCount == 0 && fetched >= 0
